@@ -38,7 +38,7 @@ RULE = ("each run builds an upload tree with symlinks and a prefix-sharing sibli
         "a plain relative one, or the request was not permitted")
 PROBES = ["write_fault_mid_file", "write_fault_at_0", "open_fault", "mkdir_fault", "replace_fault",
           "overwrite_existing", "symlink_to_outside", "symlink_inside", "traversal_spelling",
-          "sibling_prefix", "delete_request", "token_wrong", "size_over_limit", "upload_with_limit_zero", "via_protocol",
+          "sibling_prefix", "delete_request", "token_wrong", "size_over_limit", "upload_with_limit_zero", "via_protocol", "layout_changed_between_requests", "client_left_right_after_upload",
           "must_succeed_core", "fault_on_existing_file", "handler_from_server_config"]
 COMPONENTS = {
     "real": ["nauyaca.server.handler.FileUploadHandler", "nauyaca.protocol.request.TitanRequest "
@@ -132,10 +132,27 @@ def run_one(ch):
     nreq = 1 + ch.choose("nreq", 4, [4, 3, 2, 1])
     FILES.install()
     sigs = []
+    used_paths = []
     try:
         for i in range(nreq):
             pi = ch.choose("path", len(PATHS), [6, 6, 3, 3, 2] + [1] * (len(PATHS) - 5))
             path, pclass = PATHS[pi]
+            if i and ch.chance("relayout", 0.12):
+                # the layout changes between two requests for the SAME path on the same
+                # long-lived handler: a real directory on the way is moved aside and replaced
+                # by a symlink that leads out of the upload directory
+                cands = [(p_, c_) for p_, c_ in used_paths if p_.count("/") >= 2 and
+                         p_.split("/")[1] not in ("", ".", "..") and
+                         os.path.isdir(os.path.join(U, p_.split("/")[1])) and
+                         not os.path.islink(os.path.join(U, p_.split("/")[1]))]
+                if cands:
+                    path, pclass = cands[ch.choose("relayout_path", len(cands))]
+                    first = os.path.join(U, path.split("/")[1])
+                    os.rename(first, first + f".moved{i}")
+                    os.symlink("../outside", first)
+                    pclass = "dir-replaced-by-symlink-out"
+                    res.stats["layout_changed_between_requests"] += 1
+            used_paths.append((path, pclass))
             size = ch.biased_size("size", 0, max_size + 20,
                                   [x for x in (0, 1, max_size - 1, max_size, max_size + 1, 50)
                                    if 0 <= x <= max_size + 20])
@@ -215,13 +232,32 @@ def run_one(ch):
                             "the upload handler raised instead of answering", **ctx)
                 continue
             ok2x = status is not None and 20 <= status <= 29
+            client_left = via_proto and _VP.get("left") and status is None
             outside_touched = [k for k in file_changes
                                if not (k == "uploads" or k.startswith("uploads" + os.sep))]
             if outside_touched:
                 res.violate(f"C14/file-outside-upload-dir-changed/{pclass}",
                             f"a file outside the upload directory changed: {outside_touched[:3]}",
                             **ctx)
-            if ok2x:
+            if client_left:
+                # the client closed right behind its request and saw no answer: whatever the
+                # server then did must still be the authorised change, exactly as sent
+                res.stats["client_left_right_after_upload"] += 1
+                want = ("f", hashlib.sha256(content).hexdigest()[:16], size)
+                if file_changes and (strictly_forbidden or not inside):
+                    res.violate(f"C14/unauthorised-change-after-client-left/{pclass}",
+                                "files changed for a request that is not permitted", **ctx)
+                elif file_changes and size > 0 and (set(file_changes) - {rel_dest} or
+                                                     after.get(rel_dest) != want):
+                    res.violate(f"C14/stored-content-or-location-wrong/{pclass}",
+                                "the client left after sending; the only file change may be the "
+                                "target holding exactly the declared bytes",
+                                want=want, got=after.get(rel_dest), **ctx)
+                elif file_changes and size == 0 and (set(file_changes) - {rel_dest} or rel_dest in after):
+                    res.violate(f"C14/delete-effect-wrong/{pclass}",
+                                "the client left after sending; the only change may be the removal "
+                                "of the target", **ctx)
+            elif ok2x:
                 if strictly_forbidden:
                     why = ("token" if (tokens and tokv in (0, 2)) else "size" if size > max_size
                            else "media-type" if (types is not None and mime not in types) else "delete-disabled")
@@ -254,14 +290,14 @@ def run_one(ch):
                                  for j in [i for i, ch_ in enumerate(os.path.dirname(rel_dest) + os.sep)
                                            if ch_ == os.sep])
                 dest_ok = before.get(rel_dest, (None,))[0] in (None, "f")
-                if permitted and parents_ok and dest_ok and \
+                if permitted and parents_ok and dest_ok and inside and \
                         pclass in ("plain", "plain-existing") and not fired and \
                         not strictly_forbidden and tokv != 3 and \
                         (size > 0 or before.get(rel_dest, (None,))[0] == "f"):
                     res.violate(f"C14/valid-upload-refused/{pclass}",
                                 f"a permitted upload to a plain relative path without any fault "
                                 f"was answered with {status}", **ctx)
-            if ok2x and permitted and pclass in ("plain", "plain-existing") and not fired:
+            if ok2x and permitted and inside and pclass in ("plain", "plain-existing") and not fired:
                 res.stats["must_succeed_core"] += 1
             # probes
             for f in fired:
@@ -311,27 +347,48 @@ def run_one(ch):
     return res
 
 
+_VP = {}
+
+
 def _via_protocol(ch, handler, line, content):
-    """Send the request through the real protocol state machine on the
-    plaintext wire; returns the status the peer received."""
+    """Send the request through the real protocol state machine (plaintext wire or one of
+    the TLS backends); returns the status the peer received (None if it left first)."""
     sim = Sim(ch)
     net = sim.net
     out = {}
+    mode = ch.pick("vpmode", ["plain", "stdlib", "pyopenssl"], [3, 1, 3])
     extra = b"TRAILING" if ch.chance("trail", 0.3) else b""
-    stream = line.encode() + b"\r\n" + content + extra
-    pol = DrawnPolicy(ch, "c2s", ch.choose("segmode", 3, [2, 2, 1]), latency=0.001,
-                      hot=[len(line) + 2, len(line) + 2 + len(content)], dribble_limit=300)
+    head = line.encode() + b"\r\n" + content
+    flight = ch.choose("vpflight", 4, [5, 2, 2, 1])
+    _VP["left"] = flight >= 2
+    if flight == 0:
+        # one write, cut by the network at drawn places
+        script = [("send", head + extra)]
+        pol = DrawnPolicy(ch, "c2s", ch.choose("segmode", 3, [2, 2, 1]), latency=0.001,
+                          hot=[len(line) + 2, len(line) + 2 + len(content)], dribble_limit=300)
+    else:
+        # the request ends exactly at a write (= TLS record) boundary and something else
+        # follows in the same flight: undeclared bytes, or the client's goodbye
+        pol = WholePolicy(0.001)
+        if flight == 1:
+            script = [("send", head), ("send", extra or b"X")]
+        elif flight == 2:
+            script = [("send", head), ("close",)]
+        else:
+            script = [("send", head), ("send", extra or b"X"), ("close",)]
 
     async def main():
         def h(req):
             raise RuntimeError("gemini handler must not be used")
-        server = await sw.start_protocol_server(sim, "plain", h, None, handler)
+        server = await sw.start_protocol_server(sim, mode, h, None, handler)
         ep = raw_connect(net, HOST, 1965, c2s=pol, s2c=WholePolicy(0.001))
-        peer = RawPeer(net, ep, [("send", stream)], name="cli")
+        peer = RawPeer(net, ep, script, tls_ctx=sw.peer_tls_ctx(mode), name="cli",
+                       coalesce_first=bool(ch.choose("vpcoalesce", 2)))
         for _ in range(400):
             await asyncio.sleep(0.1)
-            if peer.eof_seen():
+            if peer.eof_seen() and (peer.finished or not _VP["left"]):
                 break
+        await asyncio.sleep(1.0)
         peer.drain_final()
         out["rx"] = bytes(peer.rx_plain)
         server.close()
@@ -340,5 +397,8 @@ def _via_protocol(ch, handler, line, content):
         raise sim.error
     if status != "done":
         raise RuntimeError(f"C14 wire world ended with status {status}")
+    if _VP["left"] and not out["rx"]:
+        return None
+    _VP["left"] = False
     pw = sw.parse_wire(out["rx"])
     return pw["status"]
